@@ -388,7 +388,7 @@ class Report:
         """Regression / finding witnesses: every corpus/<prop>/*.rs whose first line is
         `// witness: expect=ok stdout=<text>` (must compile against the current macro and print exactly that: the
         minimized inputs of repaired defects) or `// witness: expect=finding id=<F-..>` (an open finding: counted as
-        known while it still fails, silently fine once it passes)."""
+        known while it still fails, silently fine once it passes) or `// witness: expect=reject codes=E0119` (must not compile)."""
         d = os.path.join(VERIF, "corpus", self.prop)
         files = sorted(f for f in (os.listdir(d) if os.path.isdir(d) else []) if f.endswith(".rs"))
         todo = []
@@ -424,6 +424,16 @@ class Report:
                         self.oracle_failures.append({"clause": "regression witness of a repaired defect no longer behaves as repaired",
                                                      "witness": "corpus/%s/%s" % (self.prop, f), "expected_stdout": want, "got_stdout": out,
                                                      "compiler_errors": [l for l in r.stderr.splitlines() if l.startswith("error")][:5]})
+                elif kv.get("expect") == "reject":
+                    # a program that must NOT compile (a genuine overlap: some type satisfies two blocks — shown by the shadow traits inside the
+                    # program itself); `codes=` lists the acceptable diagnostics
+                    codes = set(re.findall(r"error\[(E\d+)\]", r.stderr))
+                    allowed = set(kv.get("codes", "").split(",")) - {""}
+                    if r.returncode == 0:
+                        self.oracle_failures.append({"clause": "an invocation with two blocks that a common type satisfies compiles (the overlap is resolved silently)",
+                                                     "witness": "corpus/%s/%s" % (self.prop, f), "stdout_of_the_compiled_program": out})
+                    elif allowed and not (codes & allowed) and "proc macro panicked" not in r.stderr and "error: " not in r.stderr:
+                        self.oracle_failures.append({"clause": "rejected for another reason than the overlap", "witness": f, "codes": sorted(codes)})
                 elif kv.get("expect") == "finding":
                     if out is None or out != kv.get("stdout", out).replace("_", " "):
                         if kv.get("id") in known:
